@@ -14,12 +14,15 @@ CONSTANTS
  MaxClose = 1
  MaxInval = 0
  MaxCompact = 0
+ MaxBatch = 1
  FixRelease = TRUE
  DevReleaseRace = FALSE
  DevPutIfOwnerOther = FALSE
  DevReacqBlind = FALSE
  DevDropSameRev = TRUE
  DevNoReload = FALSE
+ DevLoadMerge = FALSE
+ DevPutsFirst = FALSE
  FixRev = TRUE
  KeepHist = TRUE
 INIT Init
